@@ -375,6 +375,21 @@ def functions():
                 f('strlen(substr(%s,%s,%d))' % (S, lit(st), n), lambda s=s, st=st, n=n: len(sub(s, st, n)))
         for t in strs:
             f('strstr(%s,"%s")' % (S, t), lambda s=s, t=t: s.find(t))
+    # string and character constants with escapes, directly in front of an operator or a closing parenthesis
+    for src, val in [('\\\\', '\\'), ('a\\\\', 'a\\'), ('\\\\\\\\', '\\\\'), ('\\"', '"'), ('a\\"b', 'a"b'), ('\\n', '\n'), ('\\\\n', '\\n'), ('\\x41', 'A'), ('\\065', '5'), ('\\65', 'A')]:      # (\ddd decimal, \0ooo octal, \xhh hexadecimal: manual, string constants)
+        S = '"%s"' % src
+        f('strlen(%s)' % S, lambda v=val: len(v))
+        f('strlen(%s)+strlen("abc")' % S, lambda v=val: len(v) + 3)
+        f('strlen(%s+"x")' % S, lambda v=val: len(v) + 1)
+        f('strlen("x"+%s)*2' % S, lambda v=val: 2 * len(v) + 2)
+        f('(%s==%s)+4' % (S, S), lambda: 5)
+        f('(%s<>"q")+4' % S, lambda: 5)
+        f('charfromstr(%s,0)+1' % S, lambda v=val: ord(v[0]) + 1)
+        f('(strlen(%s))' % S, lambda v=val: len(v))
+    for src, val in [("'\\\\'", 0x5c), ("'\\n'", 10), ("'a'", 97), ("'\\''", 39)]:
+        f('%s+1' % src, lambda v=val: v + 1)
+        f('(%s)*2' % src, lambda v=val: v * 2)
+        f('1+%s' % src, lambda v=val: v + 1)
     return out
 
 
